@@ -17,7 +17,7 @@ func VerifHarness_C20_records() {
 	ctx := context.Background()
 	lens := []int{0, 1, 4, 8, 12, 13}
 	if verifrt.Thorough() {
-		lens = []int{0, 1, 2, 4, 5, 8, 9, 12, 13, 16, 20, 24}
+		lens = []int{0, 1, 2, 4, 5, 8, 9, 12, 13, 16}
 	}
 	kind := verifrt.Choose("record", 9)
 	n := lens[verifrt.Choose("len", len(lens))]
